@@ -15,6 +15,7 @@ import os
 
 from .. import core, refcpp
 from ..core import Acc, Violation
+from ..driver import worker_scratch
 
 LEVEL = "model_checking"
 
@@ -191,6 +192,71 @@ def cond_case(job, acc: Acc):
         acc.sample({"skeleton": list(directives), "init_defs": INIT_SETS[2]})
 
 
+# ---------------------------------------------------------------- includes
+# Headers processed in place: what a header defines depends on the macros at the point of inclusion, the same header
+# may be included several times (the "template" idiom), directly or through another header.
+HEADERS = {
+    "k.h": ["#ifndef W", "#define W 4", "#endif", "#if W == 8", "#define HAVE_DP 1", "#endif", "#define RK W"],
+    "j.h": ['#include "k.h"', "#define FROM_J 1"],
+    "u.h": ["#undef HAVE_DP", "#undef W"],
+}
+INC_ITEMS = {
+    "D4": ["#define W 4"], "D8": ["#define W 8"], "U": ["#undef W"], "IK": ['#include "k.h"'], "IJ": ['#include "j.h"'],
+    "IU": ['#include "u.h"'],
+    "P1": ["#ifdef HAVE_DP", "integer :: v_@", "#else", "integer :: v_@", "#endif"],
+    "P2": ["#if RK == 8", "integer :: v_@", "#endif"],
+}
+
+
+def include_jobs(maxlen):
+    keys = list(INC_ITEMS)
+    for n in range(1, maxlen + 1):
+        for combo in itertools.product(keys, repeat=n):
+            if not any(c.startswith("I") for c in combo) or not any(c.startswith("P") for c in combo):
+                continue
+            yield combo
+
+
+def include_case(combo, acc: Acc):
+    from fortls.parsers.internal.parser import FortranFile
+
+    lines = ["program pinc"]
+    for c in combo:
+        for t in INC_ITEMS[c]:
+            lines.append(t.replace("@", str(len(lines))))
+    lines.append("end program pinc")
+    try:
+        ref_active, ref_defs = refcpp.run(lines, {}, HEADERS)
+    except refcpp.Invalid:
+        acc.count("reference_undefined")
+        return
+    sc = worker_scratch("c08inc")
+    if not os.path.exists(os.path.join(sc.path, "k.h")):
+        for n, hl in HEADERS.items():
+            sc.write(n, "\n".join(hl) + "\n")
+    path = os.path.join(sc.path, "main.F90")
+    f = FortranFile(path)
+    f.set_contents(list(lines))
+    ast = f.parse(pp_defs={}, include_dirs=set())
+    names = {v.name.lower() for v in ast.variable_list}
+    want = {f"v_{k}" for k, ln in enumerate(lines) if ln.startswith("integer :: v_") and ref_active[k]}
+    all_v = {f"v_{k}" for k, ln in enumerate(lines) if ln.startswith("integer :: v_")}
+    got = names & all_v
+    acc.count("paths_replayed")
+    acc.case(nontrivial_key=combo if 0 < len(want) < len(all_v) else None, outcome=(tuple(sorted(want)), tuple(sorted(ref_defs))))
+    obs = None
+    if got != want:
+        obs, exp, seen = "indexed_declarations", sorted(want), sorted(got)
+    elif not table_equal(ref_defs, f.pp_defs):
+        obs, exp, seen = "macro_table", ref_defs, dict(f.pp_defs)
+    if obs:
+        acc.violation(Violation("includes", {"family": "includes", "obs": obs, "twice": sum(c.startswith("I") for c in combo) > 1,
+                                             "nested": "IJ" in combo},
+                                {"lines": lines, "headers": HEADERS, "combo": list(combo)}, exp, seen, what=f"{list(combo)}"))
+    if len(acc.samples) < 1 and len(combo) >= 4:
+        acc.sample({"main": lines, "headers": HEADERS})
+
+
 # ------------------------------------------------------------ substitution
 BODY_ATOMS = ["x", "1", " ", "+", "(", ")", "\\", "'", '"', ".", "*", "[", "$", "\\1", "\\g<0>", "y"]
 
@@ -330,6 +396,9 @@ def main(ctx):
     ctx.states = len(acc.states | sacc0.states)
     ctx.transitions = acc.counters.get("transitions", 0) + sacc0.counters.get("transitions", 0)
     ctx.traces_validated = acc.counters.get("paths_replayed", 0) + sacc0.counters.get("paths_replayed", 0)
+    iacc = core.pmap(include_case, include_jobs(5 if q else 6), chunk=128, budget_s=120, label="C08/includes")
+    ctx.add_family("includes", iacc, what="sequences of <= %d items over #define/#undef of W, #include of three headers (one nested, one that "
+                   "undefines) and two probe blocks; reference refcpp with in-place header processing" % (5 if q else 6))
     sacc = core.pmap(subst_case, subst_jobs(3 if q else 4), chunk=256, budget_s=60, label="C08/subst")
     ctx.add_family("substitution", sacc, max_atoms=3 if q else 4)
     sub = Acc()
@@ -347,6 +416,9 @@ def main(ctx):
 def replay(rec):
     c = rec["case"]
     acc = Acc()
+    if rec["family"] == "includes":
+        include_case(tuple(c["combo"]), acc)
+        return [v.to_json("C08") for v in acc.violations] or None
     if rec["family"] == "conditionals":
         lines, defs = c["lines"], c["defs"]
         ref_active, ref_defs = refcpp.run(lines, defs)
